@@ -25,6 +25,7 @@ def make_adapter(kind, p):
 
 class C11(Property):
     id = "C11"
+    anchors = ('finam.adapters.time:TimeCachingAdapter._source_updated', 'finam.adapters.time:TimeCachingAdapter._get_data', 'finam.adapters.time:LinearTime._interpolate', 'finam.adapters.time:StepTime._interpolate', 'finam.adapters.time:NextTime._interpolate', 'finam.adapters.time:PreviousTime._interpolate')
     technique = "reference-model monitor: exact (Fraction) evaluation of the interpolant definitions on the full history vs pulls behind the real adapters"
     rule = (
         "per case one adapter kind (next/previous/linear/step with position in {0,.25,.5,.75,1,random}), scalar, gridded or masked gridded payload, "
